@@ -17,12 +17,12 @@ import math
 from .. import decgen, names, snapshot
 from .. import declang as L
 
-SCALES = [None, 1, 0.5, 1e-3, 0.37, 0, -0.1, 1.5]
+SCALES = [None, 1, 0.5, 1e-3, 0.37, 0, -0.1, 1.5, float("nan"), float("inf")]
 RULE = ("one case per (generated table, option combination); non-trivial = table has >= 2 lines with different branching fractions; distinct by hash of (text, options)")
 ANCHORS = ["decaylanguage.dec.dec:DecFileParser.print_decay_modes", "decaylanguage.dec.dec:DecFileParser._decay_mode_details"]
 WORKERS = {"quick": 4, "thorough": 16}
 REQUIRED = {"ascending": 50, "ascending+scale": 20, "descending+scale": 20, "normalize": 50, "ties": 30, "lines>=5": 50, "lines>=8": 20, "refused:normalize+scale": 10,
-            "refused:scale-out-of-range": 20, "pdg-name-mother": 10, "print_model=False": 50, "photos-keyword-hidden": 30, "photos-keyword-shown": 30,
+            "refused:scale-out-of-range": 20, "refused:scale-nan": 5, "reparsed-off-and-on-between-prints": 20, "first-parsed-without-conjugates-then-with": 10, "pdg-name-mother": 10, "print_model=False": 50, "photos-keyword-hidden": 30, "photos-keyword-shown": 30,
             "option-combinations-all": 1, "conjugated-table-printed": 20, "defined-parameter-in-row": 20, "same-table-other-define-value": 10, "span>=1e6": 20, "stored-values-unchanged": 200}
 EXHAUSTIVE_NOTE = "all 2x2x2x(normalize|8 scales) option combinations are used on every 8th table (quick) / every table (thorough)"
 ASSUMPTIONS = ["values are positive (1e-12..1); 7-significant-digit rounding allows a relative error of 6e-7 per value",
@@ -131,6 +131,8 @@ def check(ctx, tab, opts, p=None, workload="gen", which=None):
     ctx.mon("C16.rows_match_table")
     if must_refuse:
         ctx.hit("refused:normalize+scale" if (scale is not None and opts.get("normalize")) else "refused:scale-out-of-range")
+        if scale is not None and scale != scale:
+            ctx.hit("refused:scale-nan")
         if raised is None:
             ctx.violate("print:contradictory-options-accepted", f"options {opts} were accepted; output {out[:200]!r}", wit)
         elif out.strip():
@@ -227,10 +229,44 @@ def run(ctx):
         full = (not ctx.quick) or i % 8 == 0
         opts_list = ALL_OPTS if full else r.sample(ALL_OPTS, 6)
         p = None
+        reparse_at = r.choice([1, 2]) if r.random() < 0.4 else None
+        if tab.get("cdecay") and r.random() < 0.4:
+            # first parsed without the conjugated tables and looked at, then parsed again with them: everything below runs on that object
+            import warnings  # noqa: PLC0415
+
+            ctx.hit("first-parsed-without-conjugates-then-with")
+            w0 = {"kind": "print", "table": tab, "options": {}, "history": "parse(include_ccdecays=False); queries; parse()"}
+            ok0, res0 = ctx.guard("parse", w0, snapshot.make_parser, L.render(statements(tab)), None, (), False)
+            if ok0:
+                p = res0[0]
+                try:
+                    with warnings.catch_warnings():
+                        warnings.simplefilter("ignore")
+                        for mm in p.list_decay_mother_names():
+                            p.list_decay_modes(mm)
+                        p.parse()
+                except Exception as e:  # noqa: BLE001
+                    ctx.violate("print:reparse-raised:" + type(e).__name__, str(e), w0)
+                    p = None
         for j, o in enumerate(opts_list):
             p = check(ctx, tab, o, p)
             if p is None:
                 break
+            if j == reparse_at:
+                # the same object parsed again with the other value of the switch and back, tables looked at in between
+                import warnings  # noqa: PLC0415
+
+                ctx.hit("reparsed-off-and-on-between-prints")
+                try:
+                    with warnings.catch_warnings():
+                        warnings.simplefilter("ignore")
+                        p.parse(include_ccdecays=False)
+                        for mm in p.list_decay_mother_names():
+                            p.list_decay_modes(mm)
+                        p.parse()
+                except Exception as e:  # noqa: BLE001
+                    ctx.violate("print:reparse-raised:" + type(e).__name__, str(e), {"kind": "print", "table": tab, "options": o})
+                    break
             if tab.get("cdecay") and j % 2 == 0:
                 check(ctx, tab, o, p, which=tab["cdecay"])      # the conjugate mother's table, same instance, right after
         if tab.get("define"):
